@@ -23,7 +23,7 @@ AGREE = ['Smooth.v']
 
 TIME_LIMIT = 20.0          # wall-clock guard per smoothed_path / smoothed_joint call (s)
 DIST_SLACK = 1e-9
-TAN_TOL = 1e-6
+TAN_TOL = 1e-6          # |u - v| of the independently computed unit tangents at an output joint
 
 
 # ------------------------------------------------------------------ geometry
@@ -65,9 +65,41 @@ def near_singular(seg):
 
 
 # ---------------------------------------------------------------- generators
-def gen_path(rng, mj, closed, kinds='mixed', nseg=None, singular=False):
+# smoothed_path calls a joint smooth when |u - v| < 1e-8 + 1e-5|v| (turn below
+# ~1.0e-5 rad = 0.000574 deg) and a reversal when |-u - v| is that small;
+# kinks() reports a joint when |u.v - 1| > 1e-8 (turn above ~1.41e-4 rad = 0.0081 deg).
+def logu(rng, lo, hi):
+    return 10 ** rng.uniform(math.log10(lo), math.log10(hi))
+
+
+def pick_angle(rng, profile):
+    """corner angle in degrees; 0.0 = exactly smooth"""
+    r = rng.random()
+    if profile == 'threshold':
+        # both sides of the code's own smooth / kink / reversal thresholds (never within 10% of them)
+        k = rng.choice(['sub', 'above', 'rev-sub', 'rev-above', 'rev-exact'])
+        if k == 'sub': return logu(rng, 1e-4, 5e-4)
+        if k == 'above': return logu(rng, 6.5e-4, 5e-3)
+        if k == 'rev-sub': return 180.0 - logu(rng, 1e-4, 5e-4)
+        if k == 'rev-above': return 180.0 - logu(rng, 6.5e-4, 5e-3)
+        return 180.0
+    if profile == 'shallow':
+        if r < 0.15: return 0.0
+        if r < 0.70: return logu(rng, 0.005, 0.5)
+        if r < 0.85: return 180.0 - logu(rng, 0.01, 0.5)
+        return rng.uniform(1.0, 179.0)
+    if r < 0.18: return 0.0
+    if r < 0.27: return rng.choice([1.0, 2.0, 5.0, 175.0, 178.0, 179.0, 90.0, 45.0, 135.0])
+    if r < 0.39: return logu(rng, 0.005, 0.5)           # shallow corners
+    if r < 0.45: return 180.0 - logu(rng, 0.01, 0.5)    # near-reversals 179.5 .. 179.99
+    return rng.uniform(1.0, 179.0)
+
+
+def gen_path(rng, mj, closed, kinds='mixed', nseg=None, singular=False, profile='std'):
     """heading walk: every joint is either exactly smooth or has a corner angle
-    in [1,179] degrees; segment sizes 0.1 .. 100 x maxjointsize"""
+    in [0.005,179.99] degrees (shallow corners and near-reversals included);
+    profile 'threshold' straddles the code's own classification thresholds;
+    segment sizes 0.1 .. 100 x maxjointsize"""
     from svgpathtools import Line, CubicBezier
     n = nseg or rng.choice([2, 2, 3, 3, 4, 5, 6, 7])
     if closed and n < 3:
@@ -87,13 +119,7 @@ def gen_path(rng, mj, closed, kinds='mixed', nseg=None, singular=False):
                 ang = None
                 d0 = h
             else:
-                r = rng.random()
-                if r < 0.2:
-                    ang = 0.0
-                elif r < 0.3:
-                    ang = rng.choice([1.0, 2.0, 5.0, 175.0, 178.0, 179.0, 90.0, 45.0, 135.0])
-                else:
-                    ang = rng.uniform(1.0, 179.0)
+                ang = pick_angle(rng, profile)
                 d0 = rot(h, ang * rng.choice([-1, 1])) if ang else h
             L = mj * 10 ** rng.uniform(-1, 2)
             if closed and last:
@@ -110,8 +136,7 @@ def gen_path(rng, mj, closed, kinds='mixed', nseg=None, singular=False):
                     a_close = math.degrees(abs(cmath.phase(start_dir / unit(chord))))
                     d1 = unit(chord)
                 else:
-                    r = rng.random()
-                    a_close = 0.0 if r < 0.2 else rng.uniform(1.0, 179.0)
+                    a_close = pick_angle(rng, profile)
                     d1 = rot(start_dir, -a_close * rng.choice([-1, 1])) if a_close else start_dir
                     Lc = abs(chord)
                     seg = CubicBezier(p, p + rng.uniform(0.2, 0.5) * Lc * d0,
@@ -166,7 +191,7 @@ def gen_path(rng, mj, closed, kinds='mixed', nseg=None, singular=False):
         real = joint_angles(segs, closed)
         if any(a is None for a in real):
             continue
-        if all((a < 1e-9) or (0.99 <= a <= 179.01) for a in real):
+        if profile == 'threshold' or all((a < 1e-9) or (0.004 <= a <= 179.995) for a in real):
             return segs, real
     raise RuntimeError('generator could not build a path')
 
@@ -181,8 +206,7 @@ def joint_angles(segs, closed):
         if u is None or v is None:
             out.append(None)
             continue
-        c = max(-1.0, min(1.0, u.real * v.real + u.imag * v.imag))
-        a = math.degrees(math.acos(c))
+        a = math.degrees(abs(cmath.phase(v / u)))      # accurate for tiny turns and near-reversals
         if abs(u - v) < 1e-12:
             a = 0.0
         out.append(a)
@@ -355,7 +379,7 @@ def refine(pt, seg, tk):
 
 
 # ------------------------------------------------------------- holds_impl
-def check_output(segs, closed, real_angles, mj, out, exc, dt):
+def check_output(segs, closed, real_angles, mj, out, exc, dt, lib_tol=False):
     """the property evaluated on the implementation's output.
     Returns a list of (key, message)."""
     from svgpathtools import Path
@@ -408,6 +432,9 @@ def check_output(segs, closed, real_angles, mj, out, exc, dt):
             worst, where = 2.0, i
             break
         d = abs(u - v)
+        if lib_tol:
+            # the library's own kink tolerance: |u.v - 1| <= 1e-8 (scaled to compare with TAN_TOL)
+            d = TAN_TOL * abs(u.real * v.real + u.imag * v.imag - 1) / 1e-8
         if d > worst:
             worst, where = d, i
     if worst > TAN_TOL:
@@ -513,18 +540,21 @@ Definition okj (c : jcase) : nat :=
   | Some (m0, mel, m1) =>
       first_fail [ (seg_close tol m0 o0, 1); (lseg_close tol mel oel, 2); (seg_close tol m1 o1, 3) ]
   end.
-(* path case: (path, maxjointsize, tightness, tol, tables, observed output) *)
+(* path case: (path, maxjointsize, tightness, tol, tables, observed outcome);
+   observed None = the implementation raised the "unfixable kinks" exception *)
 Definition pcase : Type :=
   (list segB * bf * bf * bf * list (segB * bf) * list (segB * bf * bf) * list (segB * bf * option cB)
-   * list segB)%type.
+   * option (list segB))%type.
 Definition okp (c : pcase) : nat :=
-  let '(p, mj, tg, tol, lt, it, ut, oout) := c in
-  match smoothed_path N T (o_ut ut) (o_len lt) (o_il it) o_crop p mj tg true with
-  | SPOk mout =>
+  let '(p, mj, tg, tol, lt, it, ut, obs) := c in
+  match smoothed_path N T (o_ut ut) (o_len lt) (o_il it) o_crop p mj tg false, obs with
+  | SPOk mout, Some oout =>
       if lseg_close tol mout oout then 0
       else if Nat.eqb (length mout) (length oout) then 4 else 5
-  | SPSharp _ => 6
-  | SPError => 7
+  | SPOk _, None => 8
+  | SPSharp _, None => 0
+  | SPSharp _, Some _ => 6
+  | SPError, _ => 7
   end.
 '''
 
@@ -532,7 +562,8 @@ CODES = {1: 'trimmed seg0 differs from the model', 2: 'elbow control points diff
          3: 'trimmed seg1 differs from the model', 9: 'model joint raises, implementation returned',
          4: 'smoothed_path output control points differ from the model',
          5: 'smoothed_path output has a different number of segments than the model',
-         6: 'model reports unfixable kinks, implementation returned a path',
+         6: 'model reports unfixable kinks (a joint classified as a 180-degree reversal), implementation returned a path',
+         8: 'implementation reports unfixable kinks, the model classifies no joint as a reversal and returns a path',
          7: 'model raises, implementation returned a path'}
 
 
@@ -583,6 +614,8 @@ def run(rep, tier, seed, replay=None):
         n_joints = 60 if quick else 400
         n_sing = 12 if quick else 80
         n_singj = 16 if quick else 120
+        n_shallow = 48 if quick else 400
+        n_thresh = 24 if quick else 200
         if info['agree_failed']:
             n_paths *= 2
         dist, kinds_count, ang_hist = {}, {}, [0] * 18
@@ -621,6 +654,24 @@ def run(rep, tier, seed, replay=None):
                 segs, _ = gen_path(rng, mj, closed, 'mixed', singular=True)
                 if any(is_singular(s) for s in segs):
                     todo.append((segs, closed, mj, tight, 'singular-S-type'))
+            # shallow corners / near-reversals, every joint kind, closing joints included
+            for i in range(n_shallow):
+                mj, tight = gen_params(rng)
+                closed = (i % 3 == 0)
+                kinds = ['mixed', 'lines', 'cubics', 'mixed'][i % 4]
+                segs, _ = gen_path(rng, mj, closed, kinds, nseg=rng.choice([2, 3, 3, 4, 5]), profile='shallow')
+                if closed:
+                    # any joint of the loop becomes the closing joint (so LL / LC closing joints are controlled too)
+                    k = rng.randrange(len(segs))
+                    segs = segs[k:] + segs[:k]
+                todo.append((segs, closed, mj, tight, 'shallow-' + ('closed-' if closed else 'open-') + kinds))
+            # both sides of the code's smooth / kink / reversal thresholds: ties the classification
+            for i in range(n_thresh):
+                mj, tight = gen_params(rng)
+                closed = (i % 4 == 0)
+                kinds = ['mixed', 'lines', 'cubics'][i % 3]
+                segs, _ = gen_path(rng, mj, closed, kinds, nseg=rng.choice([2, 3, 4]), profile='threshold')
+                todo.append((segs, closed, mj, tight, 'threshold'))
             sing_joints = []
             for i in range(n_singj):
                 mj, tight = gen_params(rng)
@@ -628,30 +679,51 @@ def run(rep, tier, seed, replay=None):
                 sing_joints.append((segs, tau, kind, mj, tight))
                 todo.append((segs, False, mj, tight, 'singular-S-type'))
         t_impl = 0.0
+        fine = {'shallow_0.005-0.5deg': {}, 'near_reversal_179.5-179.99deg': {}, 'threshold_stream': {}}
         for segs, closed, mj, tight, mode in todo:
             dist[mode] = dist.get(mode, 0) + 1
             real = joint_angles(segs, closed)
             for a in real:
                 if a is not None and a >= 1e-9:
                     ang_hist[min(17, int(a // 10))] += 1
-            for s0, s1 in zip(segs, segs[1:] + (segs[:1] if closed else [])):
+            pairs = list(zip(segs, segs[1:] + (segs[:1] if closed else [])))
+            for j, (s0, s1) in enumerate(pairs):
                 k = ('L' if isinstance(s0, Line) else 'C') + ('L' if isinstance(s1, Line) else 'C')
                 kinds_count[k] = kinds_count.get(k, 0) + 1
+                a = real[j]
+                if a is not None and mode != 'singular-S-type':
+                    kk = k + ('-closing' if (closed and j == len(pairs) - 1) else '')
+                    b = None
+                    if mode == 'threshold':
+                        b = 'threshold_stream'
+                        kk = ('smooth-side' if a < 5.5e-4 else 'kink-side' if a < 179.9994 else 'reversal-side')
+                    elif 0.004 <= a <= 0.5:
+                        b = 'shallow_0.005-0.5deg'
+                    elif 179.5 <= a <= 179.995:
+                        b = 'near_reversal_179.5-179.99deg'
+                    if b:
+                        fine[b][kk] = fine[b].get(kk, 0) + 1
             o = run_path_case(segs, closed, mj, tight)
             t_impl += o['dt']
             evals += 1
-            bad = check_output(segs, closed, real, mj, o['out'], o['exc'], o['dt'])
+            unfix = o['exc'] is not None and 'kinks have been detected' in str(o['exc'])
+            # the threshold stream contains joints the code documents as unfixable (reversals within
+            # 0.0006 deg): outside the property's domain, kept for the classification tie only
+            judged = not (mode == 'threshold' and any(a is not None and a > 179.999 for a in real))
+            bad = check_output(segs, closed, real, mj, o['out'], o['exc'], o['dt'],
+                               lib_tol=(mode == 'threshold')) if judged else []
             evals += 7
             for key, msg in bad:
                 report(msg, key, segs, closed, mj, tight,
                        {'output': repr(o['out'])[:1500], 'joint_angles_deg': real})
             if any(a is not None and a >= 1e-9 for a in real):
                 nontrivial.add((tuple(tuple(s.bpoints()) for s in segs), mj, tight))
-            if o['exc'] is None and isinstance(o['out'], Path) and mode != 'singular-S-type':
+            if ((o['exc'] is None and isinstance(o['out'], Path)) or unfix) and mode != 'singular-S-type':
                 lt, it, ut = tables_terms(o['lens'], o['ils'], o['uts'])
+                obs = 'None' if unfix else '(Some %s)' % coq_list([seg_term(s.bpoints()) for s in o['out']])
                 pcases.append('(%s, %s, %s, %s, %s, %s, %s, %s)' % (
                     coq_list([seg_term(s.bpoints()) for s in segs]), bf(mj), bf(tight), bf(tol_of(segs)),
-                    lt, it, ut, coq_list([seg_term(s.bpoints()) for s in o['out']])))
+                    lt, it, ut, obs))
                 pmeta.append((segs, closed, mj, tight, o, bad))
 
         # single-segment paths are returned unchanged
@@ -766,7 +838,8 @@ def run(rep, tier, seed, replay=None):
                                          'tightness': 'mix of 1.99, {0.01,0.5,1,1.5,1.9,1.999}, U(0.02,1.98)',
                                          'segment_size': 'maxjointsize * 10^U(-1,2)'}
         rep.cov['samples'] = [{'path': repr(m[0])[:300], 'closed': m[1], 'maxjointsize': m[2], 'tightness': m[3],
-                               'n_out': len(m[4]['out'])} for m in pmeta[:3]]
+                               'n_out': (len(m[4]['out']) if m[4]['out'] is not None else None)} for m in pmeta[:3]]
+        rep.cov['input_distribution']['fine_angle_joints(kind of seg0,seg1)'] = fine
         rep.cov['impl_seconds'] = round(t_impl, 1)
         rep.cov['singular_unit_tangent_oracle'] = sing_stat
         if info['agree_failed'] and not rep.violations:
